@@ -133,3 +133,11 @@ KERNELS += [
     K("src_cg_done_accept", _CG, r"return false;\s*\}\s*else\s*\{\s*return\s+(.*?);", _CGA,
       [("armijo", "bool"), ("wolfe", "bool"), ("approx_armijo", "bool"), ("approx_wolfe", "bool")], "c07", ["C07"]),
 ]
+
+# ---- lsearchk.cpp: the registered default of lsearchk::max_iterations (an integer: read from Src_c07.v, the Z reading) ----
+KERNELS += [
+    K("src_ls_default_max_iterations", _LK,
+      r"make_integer\(\"lsearchk::max_iterations\",\s*\d+,\s*LE,\s*(\d+),\s*LE,\s*\d+\)", [], [], "c07", ["C07"]),
+    K("src_ls_min_max_iterations", _LK,
+      r"make_integer\(\"lsearchk::max_iterations\",\s*(\d+),\s*LE,\s*\d+,\s*LE,\s*\d+\)", [], [], "c07", ["C07"]),
+]
